@@ -116,7 +116,10 @@ def __signature_to_member(sig: JSONSignatureDict) -> HeaderMember:
     member = HeaderMember()
     if "protected" in sig:
         protected_segment = sig["protected"]
-        member.protected = json_b64decode(protected_segment)
+        protected = json_b64decode(protected_segment)
+        if not isinstance(protected, dict):
+            raise DecodeError("Invalid header")
+        member.protected = protected
     if "header" in sig:
         member.header = sig["header"]
     return member
